@@ -1,15 +1,15 @@
 package props
 
 import (
-	"regexp"
-	"path/filepath"
-	"os/exec"
-	"os"
 	"bytes"
 	"crypto/sha256"
 	"fmt"
 	"io"
 	"math/rand"
+	"os"
+	"os/exec"
+	"path/filepath"
+	"regexp"
 	"runtime"
 	"sort"
 	"strings"
@@ -535,7 +535,6 @@ func c17ColdStart(c *core.C) bool {
 	return true
 }
 
-
 func c17Round(c *core.C) {
 	r := c.R
 	hl := &hookLog{}
@@ -572,9 +571,9 @@ func c17Round(c *core.C) {
 	iters := 240 / G
 	var clock int64
 	type stamp struct {
-		call       int
-		t0, t1     int64
-		res        string
+		call   int
+		t0, t1 int64
+		res    string
 	}
 	logs := make([][]stamp, G)
 	var wg sync.WaitGroup
